@@ -538,6 +538,9 @@ class MonWorld:
             cur = pre_inst.get(app, [])
             if app not in self.defs:
                 self._v('action-for-deleted-monitor',
+                        'api.app_monitor.delete/monitor-node-left'
+                        if self._node(app) is not None and app in self.inst
+                        else
                         'reevaluate/' + ('scale-up' if cr else 'scale-down'),
                         app=app, creates=cr, deletes=de)
                 continue
